@@ -158,8 +158,12 @@ class Ctx:
             cov["discharged"] = self.discharged
             cov["discharge_classes"] = self.discharge_classes
         if self.exhaustive is not None:
-            cov["exhaustive"] = self.exhaustive
-        cov.update(self.extra)
+            if isinstance(self.exhaustive, bool):
+                cov["exhaustive"] = self.exhaustive
+            else:
+                cov["exhaustive"] = False
+                cov["exhaustive_parts"] = self.exhaustive
+        cov.update({k: v for k, v in self.extra.items() if k not in ("exhaustive",)})
         seed = os.environ.get("VERIF_SEED", "0")
         try:
             seed = int(seed)
